@@ -216,11 +216,18 @@ fn grid_check<const E0: usize, const E1: usize>() {
             assert!(ranges[1].start <= p[1] && p[1] < ranges[1].end);
         }
     }
-    kani::cover!(r.is_some() && i0 == Some(1) && i1 == Some(0), "W: point in cell (1,0)");
+    kani::cover!(E0 < 3 || (r.is_some() && i0 == Some(1) && i1 == Some(0)), "W: point in cell (1,0)");
+    kani::cover!(r.is_some(), "W: point inside the grid");
     kani::cover!(i0.is_some() && i1.is_none(), "W: second coordinate outside");
 }
 
-//@ prop=C13,C16:thorough tier=quick mem=4 timeout=1800 inst="Grid<u8> with 2 axes (3 and 2 symbolic edges)" bounds="axes of 0..=2 and 0..=1 bins, any point; unwind 8"
+//@ prop=C13 tier=quick mem=4 timeout=1800 inst="Grid<u8> with 2 axes (2 and 2 symbolic edges)" bounds="axes of 0..=1 bins, any point; unwind 8"
+#[kani::proof]
+#[kani::unwind(8)]
+fn c13_grid_e2_e2() {
+    grid_check::<2, 2>();
+}
+//@ prop=C13,C16:thorough tier=thorough mem=4 timeout=3600 inst="Grid<u8> with 2 axes (3 and 2 symbolic edges)" bounds="axes of 0..=2 and 0..=1 bins, any point; unwind 8"
 #[kani::proof]
 #[kani::unwind(8)]
 fn c13_grid_e3_e2() {
